@@ -99,7 +99,7 @@ Definition set_selected (id : Z) : M :=
 
 (* ---- sending ------------------------------------------------------------------------ *)
 Definition fresh_tx (k : Z -> M) : M :=
-  fun s => k (s_next_tx s) (set_s_next_tx (s_next_tx s + 1) s).
+  with_state s_next_tx (fun tx => modify (set_s_next_tx (tx + 1)) ;; k tx).
 
 (* Agent.invalidatePendingBindingRequests *)
 Definition invalidate_pending (cfg : config) : M :=
@@ -155,6 +155,14 @@ Definition add_pair (l r : cand) : M :=
 Definition accepts_remote (cfg : config) (c : cand) : bool :=
   negb (existsb (Z.eqb (a_ip (c_addr c))) (cf_blocked_ips cfg)).
 
+(* replaceRemoteInPairs: "if a.getSelectedPair() == pair { a.setSelectedPair(replacement) }" *)
+Definition reselect (pid : Z) : M :=
+  with_state s_selected (fun sel =>
+    match sel with
+    | Some id => if id =? pid then set_selected id else nop
+    | None => nop
+    end).
+
 (* replacePairRemote + replaceRemoteInPairs for one superseded peer-reflexive remote *)
 Definition replace_remote_in_pairs (old new : cand) : M :=
   with_state s_checklist (fun cl =>
@@ -165,11 +173,7 @@ Definition replace_remote_in_pairs (old new : cand) : M :=
                        | Some np => if p_id np =? p_id p then set_s_nominated (Some repl) s else s
                        | None => s
                        end) ;;
-      with_state s_selected (fun sel =>
-        match sel with
-        | Some id => if id =? p_id p then set_selected id else nop
-        | None => nop
-        end))).
+      reselect (p_id p))).
 
 Definition retarget_cache (old new : cand) : M :=
   modify (fun s => set_s_cache
@@ -183,26 +187,29 @@ Definition copy_activity (old new : cand) : M :=
     | _, _ => s
     end).
 
-(* Agent.addRemoteCandidate; returns whether the candidate was accepted *)
+(* Agent.addRemoteCandidate after the filter and the duplicate check: supersede redundant
+   peer-reflexive candidates, append, pair with the local candidates of the same network type *)
+Definition add_remote_body (c : cand) (set : list cand) : M :=
+  let redundant := if c_typ c =? CandidateTypePeerReflexive then []
+                   else filter (fun e => (c_typ e =? CandidateTypePeerReflexive) && cand_taddr_eqb e c) set in
+  modify (fun s => set_s_remotes
+    (filter (fun e => negb (existsb (fun o => c_h o =? c_h e) redundant)) (s_remotes s)) s) ;;
+  for_each redundant (fun old =>
+    copy_activity old c ;; replace_remote_in_pairs old c ;; retarget_cache old c) ;;
+  modify (fun s => set_s_remotes (s_remotes s ++ [c]) s) ;;
+  (if c_tcp c =? TCPTypePassive then nop else
+   with_state (fun s => filter (fun l => c_net l =? c_net c) (s_locals s)) (fun locals =>
+     for_each locals (fun l =>
+       with_state (find_pair l c) (fun op =>
+         match op with Some _ => nop | None => add_pair l c end)))).
+
+(* Agent.addRemoteCandidate; the continuation receives whether the candidate was accepted *)
 Definition add_remote (cfg : config) (c : cand) (k : bool -> M) : M :=
-  with_state s_conn (fun conn =>
-  if conn =? ConnectionStateFailed then k false else
-  if negb (accepts_remote cfg c) then k false else
-  with_state (fun s => filter (fun e => c_net e =? c_net c) (s_remotes s)) (fun set =>
-    if existsb (fun e => cand_equal e c) set then k true else
-    let redundant := if c_typ c =? CandidateTypePeerReflexive then []
-                     else filter (fun e => (c_typ e =? CandidateTypePeerReflexive) && cand_taddr_eqb e c) set in
-    modify (fun s => set_s_remotes
-      (filter (fun e => negb (existsb (fun o => c_h o =? c_h e) redundant)) (s_remotes s)) s) ;;
-    for_each redundant (fun old =>
-      copy_activity old c ;; replace_remote_in_pairs old c ;; retarget_cache old c) ;;
-    modify (fun s => set_s_remotes (s_remotes s ++ [c]) s) ;;
-    (if c_tcp c =? TCPTypePassive then nop else
-     with_state (fun s => filter (fun l => c_net l =? c_net c) (s_locals s)) (fun locals =>
-       for_each locals (fun l =>
-         with_state (find_pair l c) (fun op =>
-           match op with Some _ => nop | None => add_pair l c end)))) ;;
-    k true)).
+  with_state (fun s => (s_conn s, filter (fun e => c_net e =? c_net c) (s_remotes s))) (fun '(conn, set) =>
+    if conn =? ConnectionStateFailed then k false
+    else if negb (accepts_remote cfg c) then k false
+    else if existsb (fun e => cand_equal e c) set then k true
+    else add_remote_body c set ;; k true).
 
 (* Agent.addCandidate (local) *)
 Definition add_local (c : cand) : M :=
@@ -548,15 +555,15 @@ Definition handle_inbound_request (cfg : config) (orc : option cand) (l : cand) 
     match orc with
     | Some rc => continue rc
     | None =>
-      fun s =>
+      with_state s_next_h (fun h =>
         let net := prflx_net l src in
         let prio := match m_prio m with
                     | Some p => if p =? 0 then prflx_default_prio net (c_comp l) else p
                     | None => prflx_default_prio net (c_comp l)
                     end in
-        let rc := mkCand (s_next_h s) CandidateTypePeerReflexive net src TCPTypeUnspecified prio (c_comp l) (Some (0, 0)) in
-        (modify (set_s_next_h (s_next_h s + 1)) ;;
-         add_remote cfg rc (fun ok => if ok then continue rc else k None)) s
+        let rc := mkCand h CandidateTypePeerReflexive net src TCPTypeUnspecified prio (c_comp l) (Some (0, 0)) in
+        modify (set_s_next_h (h + 1)) ;;
+        add_remote cfg rc (fun ok => if ok then continue rc else k None))
     end).
 
 (* Agent.handleInbound *)
@@ -587,17 +594,15 @@ Definition handle_inbound (cfg : config) (l : cand) (src : addr) (m : msg) : M :
 
 (* ---- the connectivity-check tick (closure `contact` of Agent.connectivityChecks) -------------- *)
 Definition tick (cfg : config) : M :=
-  fun s =>
-    if s_closed s || negb (s_started s) then (s, []) else
-    let finish (r : state * list out) :=
-        let '(s', o) := r in (set_s_tick_last (s_conn s') s', o) in
-    if s_conn s =? ConnectionStateFailed then finish (s, [])
-    else if s_conn s =? ConnectionStateChecking then
-      let s1 := if negb (s_tick_last s =? s_conn s) then set_s_tick_start (s_now s) s else s in
-      if negb (s_tick_timeout s1 =? 0) && (s_tick_timeout s1 <? since cfg s1 (s_tick_start s1))
-      then finish (update_conn ConnectionStateFailed s1)
-      else finish (contact_candidates cfg s1)
-    else finish (contact_candidates cfg s).
+  with_state (fun s => (s_closed s || negb (s_started s), s_conn s)) (fun '(idle, conn) =>
+    if idle then nop else
+    (if conn =? ConnectionStateFailed then nop
+     else if conn =? ConnectionStateChecking then
+       modify (fun s => if negb (s_tick_last s =? s_conn s) then set_s_tick_start (s_now s) s else s) ;;
+       with_state (fun s => negb (s_tick_timeout s =? 0) && (s_tick_timeout s <? since cfg s (s_tick_start s)))
+         (fun expired => if expired then update_conn ConnectionStateFailed else contact_candidates cfg)
+     else contact_candidates cfg) ;;
+    modify (fun s => set_s_tick_last (s_conn s) s)).
 
 (* ---- application data --------------------------------------------------------------------------- *)
 Definition cache_lookup (lh : Z) (src : addr) (s : state) : option Z :=
@@ -607,29 +612,32 @@ Definition cache_lookup (lh : Z) (src : addr) (s : state) : option Z :=
   end.
 
 (* candidateBase.handleInboundPacket, non-STUN branch *)
+Definition accept_data (p : payload) : M :=
+  modify (fun s => set_s_buf (s_buf s ++ [p]) s) ;;
+  (if 0 <? pl_len p then
+     with_state selected_pair (fun osp =>
+       match osp with
+       | Some sp => upd_pair (p_id sp) (fun q => set_p_bytes_recv (p_bytes_recv q + pl_len p)
+                                                   (set_p_pkts_recv (p_pkts_recv q + 1) q))
+       | None => nop
+       end)
+   else nop).
+
 Definition inbound_data (l : cand) (src : addr) (p : payload) : M :=
-  fun s =>
-    if pl_stun p then (s, []) (* goes to the STUN decoder; the harness only sends undecodable ones *)
-    else
-      let accept (s1 : state) : state * list out :=
-        let s2 := set_s_buf (s_buf s1 ++ [p]) s1 in
-        if 0 <? pl_len p then
-          match selected_pair s2 with
-          | Some sp => upd_pair (p_id sp) (fun q => set_p_bytes_recv (p_bytes_recv q + pl_len p)
-                                                      (set_p_pkts_recv (p_pkts_recv q + 1) q)) s2
-          | None => (s2, [])
-          end
-        else (s2, []) in
-      match cache_lookup (c_h l) src s with
-      | Some rh => accept (fst (seen rh s))
+  if pl_stun p then nop (* goes to the STUN decoder; the harness only sends undecodable ones *)
+  else
+    with_state (fun s => (cache_lookup (c_h l) src s, find_remote (c_net l) src s)) (fun '(cached, orc) =>
+      match cached with
+      | Some rh => seen rh ;; accept_data p
       | None =>
-        match find_remote (c_net l) src s with
+        match orc with
         | Some rc =>
-          let s1 := fst (seen (c_h rc) s) in
-          accept (set_s_cache (s_cache s1 ++ [(c_h l, src, c_h rc)]) s1)
-        | None => (s, [])
+          seen (c_h rc) ;;
+          modify (fun s => set_s_cache (s_cache s ++ [(c_h l, src, c_h rc)]) s) ;;
+          accept_data p
+        | None => nop
         end
-      end.
+      end).
 
 Definition do_write (pr : pair) (p : payload) (count_conn : bool) : M :=
   emit (OData (c_h (p_loc pr)) (c_addr (p_rem pr)) p) ;;
@@ -641,124 +649,130 @@ Definition do_write (pr : pair) (p : payload) (count_conn : bool) : M :=
 
 (* Conn.Write *)
 Definition conn_write (p : payload) : M :=
-  fun s =>
-    if s_closed s then (s, [ORet RErrClosed])
-    else if pl_stun p then (s, [ORet RErrStunPayload])
-    else match selected_pair s with
-         | Some pr => do_write pr p true s
-         | None => match best_valid s with
-                   | Some pr => do_write pr p true s
-                   | None => (s, [ORet RErrNoPairs])
+  with_state (fun s => (s_closed s, selected_pair s, best_valid s)) (fun '(closed, osp, ob) =>
+    if closed then emit (ORet RErrClosed)
+    else if pl_stun p then emit (ORet RErrStunPayload)
+    else match osp with
+         | Some pr => do_write pr p true
+         | None => match ob with
+                   | Some pr => do_write pr p true
+                   | None => emit (ORet RErrNoPairs)
                    end
-         end.
+         end).
 
 (* Conn.WriteToPair *)
 Definition conn_write_to_pair (id : Z) (p : payload) : M :=
-  fun s =>
-    if s_closed s then (s, [ORet RErrClosed])
-    else if pl_stun p then (s, [ORet RErrStunPayload])
-    else match pair_by_id id s with
-         | None => (s, [ORet RErrPairNotFound])
-         | Some pr => if p_state pr =? CandidatePairStateSucceeded then do_write pr p false s
-                      else (s, [ORet RErrPairNotSucceeded])
-         end.
+  with_state (fun s => (s_closed s, pair_by_id id s)) (fun '(closed, opr) =>
+    if closed then emit (ORet RErrClosed)
+    else if pl_stun p then emit (ORet RErrStunPayload)
+    else match opr with
+         | None => emit (ORet RErrPairNotFound)
+         | Some pr => if p_state pr =? CandidatePairStateSucceeded then do_write pr p false
+                      else emit (ORet RErrPairNotSucceeded)
+         end).
 
 (* Conn.Read (the harness only reads when data is queued) *)
 Definition conn_read : M :=
-  fun s =>
-    if s_closed s then (s, [ORet RErrClosed])
-    else match s_buf s with
-         | [] => (s, [ORet RWouldBlock])
-         | p :: t => (set_s_bytes_recv (s_bytes_recv s + pl_len p) (set_s_buf t s), [ODeliver p])
-         end.
+  with_state (fun s => (s_closed s, s_buf s)) (fun '(closed, buf) =>
+    if closed then emit (ORet RErrClosed)
+    else match buf with
+         | [] => emit (ORet RWouldBlock)
+         | p :: t => modify (fun s => set_s_bytes_recv (s_bytes_recv s + pl_len p) (set_s_buf t s)) ;;
+                     emit (ODeliver p)
+         end).
 
 (* ---- API operations -------------------------------------------------------------------------------- *)
 Definition initial_checking_timeout (cfg : config) : Z :=
   initialCheckingTimeout (cf_failed_timeout cfg) (cf_disc_timeout cfg) (cf_lite cfg) (cf_disc_explicit cfg).
 
 Definition do_start (cfg : config) (ctl : bool) (ru rp : Z) : M :=
-  fun s =>
-    if s_closed s then (s, [ORet RErrClosed])
-    else if s_started s then (s, [ORet RErrMultipleStart])
-    else if (ru =? 0) || (rp =? 0) then (s, [ORet RErrEmptyCreds])
+  with_state (fun s => (s_closed s, s_started s)) (fun '(closed, started) =>
+    if closed then emit (ORet RErrClosed)
+    else if started then emit (ORet RErrMultipleStart)
+    else if (ru =? 0) || (rp =? 0) then emit (ORet RErrEmptyCreds)
     else
-      (modify (fun s => set_s_tick_timeout (initial_checking_timeout cfg)
-                          (set_s_tick_start 0 (set_s_tick_last 0
-                          (set_s_started true (set_s_rpwd rp (set_s_rufrag ru (set_s_ctl ctl s))))))) ;;
-       set_selector ;;
-       update_conn ConnectionStateChecking ;;
-       emit (ORet ROk)) s.
+      modify (fun s => set_s_tick_timeout (initial_checking_timeout cfg)
+                         (set_s_tick_start 0 (set_s_tick_last 0
+                         (set_s_started true (set_s_rpwd rp (set_s_rufrag ru (set_s_ctl ctl s))))))) ;;
+      set_selector ;;
+      update_conn ConnectionStateChecking ;;
+      emit (ORet ROk)).
 
 Definition do_set_remote_creds (ru rp : Z) : M :=
-  fun s =>
-    if (ru =? 0) || (rp =? 0) then (s, [ORet RErrEmptyCreds])
-    else if s_closed s then (s, [ORet RErrClosed])
-    else (set_s_rpwd rp (set_s_rufrag ru s), [ORet ROk]).
+  with_state s_closed (fun closed =>
+    if (ru =? 0) || (rp =? 0) then emit (ORet RErrEmptyCreds)
+    else if closed then emit (ORet RErrClosed)
+    else modify (fun s => set_s_rpwd rp (set_s_rufrag ru s)) ;; emit (ORet ROk)).
 
 (* Agent.Restart *)
 Definition do_restart (lu lp : Z) : M :=
-  fun s =>
-    if s_closed s then (s, [ORet RErrClosed]) else
-    (modify (fun s => set_s_cache [] (set_s_lastrecv [] (set_s_remotes [] (set_s_locals []
-               (set_s_selected None (set_s_pending [] (set_s_checklist []
-               (set_s_rpwd 0 (set_s_rufrag 0 (set_s_lpwd lp (set_s_lufrag lu s))))))))))) ;;
-     set_selector ;;
-     with_state s_conn (fun c => if c =? ConnectionStateNew then nop else update_conn ConnectionStateChecking) ;;
-     emit (ORet ROk)) s.
+  with_state s_closed (fun closed =>
+    if closed then emit (ORet RErrClosed) else
+    modify (fun s => set_s_cache [] (set_s_lastrecv [] (set_s_remotes [] (set_s_locals []
+              (set_s_selected None (set_s_pending [] (set_s_checklist []
+              (set_s_rpwd 0 (set_s_rufrag 0 (set_s_lpwd lp (set_s_lufrag lu s))))))))))) ;;
+    set_selector ;;
+    with_state s_conn (fun c => if c =? ConnectionStateNew then nop else update_conn ConnectionStateChecking) ;;
+    emit (ORet ROk)).
 
 (* Agent.RenominateCandidate *)
 Definition do_renominate (cfg : config) (l r : cand) (v : Z) : M :=
-  fun s =>
-    if negb (s_ctl s) then (s, [ORet RErrNotControlling])
-    else if negb (cf_renomination cfg) then (s, [ORet RErrRenominationOff])
+  with_state (fun s => (s_ctl s, find_pair l r s)) (fun '(ctl, op) =>
+    if negb ctl then emit (ORet RErrNotControlling)
+    else if negb (cf_renomination cfg) then emit (ORet RErrRenominationOff)
     else
-      match find_pair l r s with
-      | None => (s, [ORet RErrPairNotFound])
+      match op with
+      | None => emit (ORet RErrPairNotFound)
       | Some p =>
-        (fresh_tx (fun tx => with_state (fun s =>
+        fresh_tx (fun tx => with_state (fun s =>
             request_msg s cfg tx true (c_prio (p_loc p)) (if 0 <? v then Some v else None))
             (fun m => send_binding_request cfg m (p_loc p) (p_rem p))) ;;
-         emit (ORet ROk)) s
-      end.
+        emit (ORet ROk)
+      end).
 
 (* Agent.Close: the task loop's on-close callback *)
 Definition do_close : M :=
-  fun s =>
-    if s_closed s then (s, [ORet ROk]) else
-    (modify (fun s => set_s_closed true (set_s_remotes [] (set_s_locals [] s))) ;;
-     update_conn ConnectionStateClosed ;;
-     emit (ORet ROk)) s.
+  with_state s_closed (fun closed =>
+    if closed then emit (ORet ROk) else
+    modify (fun s => set_s_closed true (set_s_remotes [] (set_s_locals [] s))) ;;
+    update_conn ConnectionStateClosed ;;
+    emit (ORet ROk)).
 
-Definition step (cfg : config) (s : state) (o : op) : state * list out :=
+Definition step_m (cfg : config) (o : op) : M :=
   match o with
-  | AddLocal c => if s_closed s then (s, [ORet RErrClosed]) else add_local c s
+  | AddLocal c => with_state s_closed (fun closed => if closed then emit (ORet RErrClosed) else add_local c)
   | AddRemote c =>
-    if c_tcp c =? TCPTypeActive then (s, [ORet RIgnored])
-    else if s_closed s then (s, [ORet RErrClosed])
-    else add_remote cfg c (fun ok => emit (ORet (if ok then ROk else RIgnored))) s
-  | Start ctl ru rp => do_start cfg ctl ru rp s
-  | SetRemoteCreds ru rp => do_set_remote_creds ru rp s
-  | Advance d => (set_s_now (s_now s + d) s, [])
-  | Tick => tick cfg s
+    with_state s_closed (fun closed =>
+      if c_tcp c =? TCPTypeActive then emit (ORet RIgnored)
+      else if closed then emit (ORet RErrClosed)
+      else add_remote cfg c (fun ok => emit (ORet (if ok then ROk else RIgnored))))
+  | Start ctl ru rp => do_start cfg ctl ru rp
+  | SetRemoteCreds ru rp => do_set_remote_creds ru rp
+  | Advance d => modify (fun s => set_s_now (s_now s + d) s)
+  | Tick => tick cfg
   | InStun lh src m =>
-    if s_closed s then (s, []) else
-    match find_local lh s with
-    | Some l => handle_inbound cfg l src m s
-    | None => (s, [])
-    end
+    with_state (fun s => (s_closed s, find_local lh s)) (fun '(closed, ol) =>
+      if closed then nop else
+      match ol with
+      | Some l => handle_inbound cfg l src m
+      | None => nop
+      end)
   | InData lh src p =>
-    if s_closed s then (s, []) else
-    match find_local lh s with
-    | Some l => inbound_data l src p s
-    | None => (s, [])
-    end
-  | Write p => conn_write p s
-  | WriteToPair id p => conn_write_to_pair id p s
-  | Read => conn_read s
-  | Restart lu lp => do_restart lu lp s
-  | Renominate l r v => do_renominate cfg l r v s
-  | Close => do_close s
+    with_state (fun s => (s_closed s, find_local lh s)) (fun '(closed, ol) =>
+      if closed then nop else
+      match ol with
+      | Some l => inbound_data l src p
+      | None => nop
+      end)
+  | Write p => conn_write p
+  | WriteToPair id p => conn_write_to_pair id p
+  | Read => conn_read
+  | Restart lu lp => do_restart lu lp
+  | Renominate l r v => do_renominate cfg l r v
+  | Close => do_close
   end.
+
+Definition step (cfg : config) (s : state) (o : op) : state * list out := step_m cfg o s.
 
 Definition init (lufrag lpwd : Z) : state :=
   mkState false ConnectionStateNew lufrag lpwd 0 0 [] [] [] 0 [] None None 0 None [] false 1 1000000 [] 0 0 0 0 0 [] 0 false.
